@@ -60,7 +60,7 @@ R.contract("GrayCodes::GrayCodes", params={"self": REF("GrayCodes"), "length": B
            props=["C01", "C08"])
 
 # ---- has_next
-R.contract("GrayCodes::has_next", params={"self": REF("GrayCodes")}, returns=CBOOL() if False else None,
+R.contract("GrayCodes::has_next", params={"self": REF("GrayCodes")}, returns=CBOOL(),
            requires=[("inv", INV)],
            ensures=[("result", lambda eng, st: st.env["result"] == has_next_now(eng, st))],
            props=["C01", "C08"])
